@@ -139,7 +139,7 @@ def _parse(r):
         r.violated = 'temporal'
     elif 'Deadlock reached' in out:
         r.violated = 'deadlock'
-    elif re.search(r'Error: The postcondition|Postcondition .* violated|POSTCONDITION', out) and 'violated' in out:
+    elif re.search(r'Error: Postcondition \S+ .*is false', out):
         r.violated = 'postcondition'
     elif 'Error: Evaluating assumption' in out or 'Assumption' in out and 'is false' in out:
         r.violated = 'assumption'
@@ -186,3 +186,36 @@ def parse_dot(path):
                 if m.group(3):
                     init.append(m.group(1))
     return states, edges, init
+
+
+def find_prints(out, tag):
+    """Values printed with PrintT(<<"tag", v...>>): bracket-matched, parsed. Returns list of tuples."""
+    res = []
+    key = re.compile(r'<<\s*"%s"' % re.escape(tag))
+    pos = 0
+    while True:
+        m = key.search(out, pos)
+        if not m:
+            break
+        i = m.start()
+        depth = 0
+        j = i
+        n = len(out)
+        while j < n:
+            if out.startswith('<<', j):
+                depth += 1
+                j += 2
+                continue
+            if out.startswith('>>', j):
+                depth -= 1
+                j += 2
+                if depth == 0:
+                    break
+                continue
+            j += 1
+        try:
+            res.append(tla.parse_value(out[i:j]))
+        except ValueError:
+            pass
+        pos = j
+    return res
